@@ -240,7 +240,7 @@ impl core::hash::Hasher for Rec {
 // ---------------------------------------------------------------------------------------------
 // call trace shared by the recording types (Clone, operators)
 // ---------------------------------------------------------------------------------------------
-pub const TRACE_CAP: usize = 24;
+pub const TRACE_CAP: usize = 12;
 #[derive(Clone, Copy, PartialEq, Eq, Debug)]
 pub struct Ev {
     pub op: u8,
@@ -445,4 +445,225 @@ impl Default for Mode {
     fn default() -> Mode {
         Mode::Slow
     }
+}
+
+// ---------------------------------------------------------------------------------------------
+// Debug observation (C10 / C12): a fixed-size fmt::Write sink and a field type that echoes the
+// formatter flags it receives
+// ---------------------------------------------------------------------------------------------
+pub const SINK_CAP: usize = 64;
+pub struct Sink {
+    pub buf: [u8; SINK_CAP],
+    pub len: usize,
+    pub overflow: bool,
+}
+impl Sink {
+    pub const fn new() -> Self {
+        Sink {
+            buf: [0; SINK_CAP],
+            len: 0,
+            overflow: false,
+        }
+    }
+    pub fn same(&self, o: &Sink) -> bool {
+        if self.len != o.len || self.overflow != o.overflow {
+            return false;
+        }
+        self.buf == o.buf
+    }
+}
+impl core::fmt::Write for Sink {
+    fn write_str(&mut self, s: &str) -> core::fmt::Result {
+        let b = s.as_bytes();
+        if self.len + b.len() > SINK_CAP {
+            self.overflow = true;
+            return Ok(());
+        }
+        self.buf[self.len..self.len + b.len()].copy_from_slice(b);
+        self.len += b.len();
+        Ok(())
+    }
+}
+/// F prints one value-dependent byte and one byte describing the formatter flags it was given
+#[derive(Clone, Copy, PartialEq, Eq)]
+pub struct F(pub u8);
+impl core::fmt::Debug for F {
+    fn fmt(&self, f: &mut core::fmt::Formatter<'_>) -> core::fmt::Result {
+        use core::fmt::Write;
+        let mut flags = 0u8;
+        if f.alternate() {
+            flags |= 1;
+        }
+        if f.sign_plus() {
+            flags |= 2;
+        }
+        if f.sign_minus() {
+            flags |= 4;
+        }
+        if f.sign_aware_zero_pad() {
+            flags |= 8;
+        }
+        if f.width().is_some() {
+            flags |= 16;
+        }
+        if f.precision().is_some() {
+            flags |= 32;
+        }
+        f.write_char((b'a' + (self.0 & 15)) as char)?;
+        f.write_char((b'A' + (self.0 >> 4)) as char)?;
+        f.write_char((b'0' + flags) as char)
+    }
+}
+impl Gen for F {
+    fn gen<S: Src>(s: &mut S) -> Self {
+        F(s.u8())
+    }
+}
+
+// ---------------------------------------------------------------------------------------------
+// Snap: structural copy / comparison that never goes through Clone (C07 reference runs)
+// ---------------------------------------------------------------------------------------------
+pub trait Snap: Sized {
+    fn snap(&self) -> Self;
+    fn same(&self, o: &Self) -> bool;
+}
+impl Snap for R {
+    fn snap(&self) -> Self {
+        R(self.0)
+    }
+    fn same(&self, o: &Self) -> bool {
+        self.0 == o.0
+    }
+}
+impl Snap for u8 {
+    fn snap(&self) -> Self {
+        *self
+    }
+    fn same(&self, o: &Self) -> bool {
+        *self == *o
+    }
+}
+impl<'a, X: Snap> Snap for &'a X {
+    fn snap(&self) -> Self {
+        *self
+    }
+    /// references are compared by address: a clone of `&X` must be the same reference
+    fn same(&self, o: &Self) -> bool {
+        core::ptr::eq(*self, *o)
+    }
+}
+impl<X: Snap, Y: Snap> Snap for (X, Y) {
+    fn snap(&self) -> Self {
+        (self.0.snap(), self.1.snap())
+    }
+    fn same(&self, o: &Self) -> bool {
+        self.0.same(&o.0) && self.1.same(&o.1)
+    }
+}
+impl<X: Snap> Snap for [X; 2] {
+    fn snap(&self) -> Self {
+        [self[0].snap(), self[1].snap()]
+    }
+    fn same(&self, o: &Self) -> bool {
+        self[0].same(&o[0]) && self[1].same(&o[1])
+    }
+}
+impl<X: Snap> Snap for Option<X> {
+    fn snap(&self) -> Self {
+        match self {
+            Some(x) => Some(x.snap()),
+            None => None,
+        }
+    }
+    fn same(&self, o: &Self) -> bool {
+        match (self, o) {
+            (Some(a), Some(b)) => a.same(b),
+            (None, None) => true,
+            _ => false,
+        }
+    }
+}
+impl<X> Snap for core::marker::PhantomData<X> {
+    fn snap(&self) -> Self {
+        core::marker::PhantomData
+    }
+    fn same(&self, _: &Self) -> bool {
+        true
+    }
+}
+impl<X: Gen, Y: Gen> Gen for (X, Y) {
+    fn gen<S: Src>(s: &mut S) -> Self {
+        (X::gen(s), Y::gen(s))
+    }
+}
+impl<X: Gen> Gen for [X; 2] {
+    fn gen<S: Src>(s: &mut S) -> Self {
+        [X::gen(s), X::gen(s)]
+    }
+}
+impl<X: Gen> Gen for Option<X> {
+    fn gen<S: Src>(s: &mut S) -> Self {
+        if s.bool() {
+            Some(X::gen(s))
+        } else {
+            None
+        }
+    }
+}
+/// RC: `Copy` with a hand-written, call-recording `Clone`
+#[derive(Debug, PartialEq, Eq, Copy)]
+pub struct RC(pub u8);
+impl Clone for RC {
+    fn clone(&self) -> Self {
+        trace_push(OP_CLONE, self.0, 0xC);
+        RC(self.0)
+    }
+    fn clone_from(&mut self, source: &Self) {
+        trace_push(OP_CLONE_FROM, self.0, source.0);
+        self.0 = source.0;
+    }
+}
+impl Gen for RC {
+    fn gen<S: Src>(s: &mut S) -> Self {
+        RC(s.u8())
+    }
+}
+impl Snap for RC {
+    fn snap(&self) -> Self {
+        RC(self.0)
+    }
+    fn same(&self, o: &Self) -> bool {
+        self.0 == o.0
+    }
+}
+/// a saved copy of the call trace
+#[derive(Clone, Copy)]
+pub struct TraceCopy {
+    pub ev: [Ev; 12],
+    pub len: usize,
+}
+pub fn trace_take() -> TraceCopy {
+    let mut t = TraceCopy { ev: [Ev { op: 0, a: 0, b: 0 }; 12], len: trace_len() };
+    let mut i = 0;
+    while i < 12 {
+        if i < t.len {
+            t.ev[i] = trace_at(i);
+        }
+        i += 1;
+    }
+    trace_reset();
+    t
+}
+pub fn trace_same(a: &TraceCopy, b: &TraceCopy) -> bool {
+    if a.len != b.len || a.len > 12 {
+        return false;
+    }
+    let mut i = 0;
+    while i < 12 {
+        if i < a.len && a.ev[i] != b.ev[i] {
+            return false;
+        }
+        i += 1;
+    }
+    true
 }
